@@ -1039,6 +1039,52 @@ def m_entry_or_insert(interp, path, args, ret_ty, callee):
     return outs
 
 
+@model(r"^(hash_map::|map::|btree_map::)?Entry::<.*>::or_default$",
+       "&mut to the value of the key, inserting the type's default (0 for integers) into a free slot when absent")
+def m_entry_or_default(interp, path, args, ret_ty, callee):
+    m = re.search(r"Entry::<'_, (.+), (\w+)>::or_default$", canon(callee))
+    vty = m.group(2) if m else None
+    if vty in INT_TYPES:
+        dflt = IntV(0, vty)
+    elif vty == "Decimal":
+        dflt = StructV("Decimal", [StructV("I192", [IntV(0, "BInt<3>")])])
+    else:
+        raise Refuse("or_default for value type %s" % vty)
+    return m_entry_or_insert(interp, path, [args[0], dflt], ret_ty, callee)
+
+
+@model(r"^" + MAP_TY + r"::<.*>::keys$", "iterator over the keys of the present slots (slot order)")
+def m_map_keys(interp, path, args, ret_ty, callee):
+    m = _symmap(interp, path, args[0])
+    return StructV("SlotKeysIter", list(m.fields))
+
+
+@model(r"^<(map::|hash_map::|btree_map::)?Keys<.*> as Iterator>::next$", "next present key by reference (forks on presence)")
+def m_map_keys_next(interp, path, args, ret_ty, callee):
+    from .interp import _ConstRef
+    r = args[0]
+    if r.kind != "ref" or hasattr(r, "target"):
+        raise Refuse("Iterator::next needs a reference to the iterator place")
+    outs = []
+    work = [path]
+    while work:
+        p = work.pop()
+        it = interp.read(p, r.fid, r.local, r.projs)
+        if it.kind != "struct" or it.ty != "SlotKeysIter":
+            raise Refuse("Iterator::next on %r" % (it,))
+        if not it.fields:
+            outs.append(Outcome(p, "ret", EnumV(ret_ty, 0, {0: []})))
+            continue
+        s0 = it.fields[0]
+        for p2, tag in interp.fork(p, [(s0.fields[2].term, "present"), (z3.Not(s0.fields[2].term), "absent")]):
+            interp.write(p2, r.fid, r.local, r.projs, StructV("SlotKeysIter", it.fields[1:]))
+            if tag == "present":
+                outs.append(Outcome(p2, "ret", EnumV(ret_ty, 1, {1: [_ConstRef("&" + s0.fields[0].ty, s0.fields[0])]})))
+            else:
+                work.append(p2)
+    return outs
+
+
 @model(r"^" + MAP_TY + r"::<.*>::(get|get_mut)(::<.*>)?$", "Some(&value) of the slot holding the key, else None")
 def m_map_get(interp, path, args, ret_ty, callee):
     mref = args[0]
@@ -1120,7 +1166,8 @@ def m_vec_new(interp, path, args, ret_ty, callee):
 
 
 # ---------------------------------------------------------------- consuming iteration over an IndexMap entry list
-@model(r"^<(map::)?IntoIter<.*> as IntoIterator>::into_iter$", "an iterator is its own IntoIterator")
+@model(r"^<(map::|set::|hash_map::|btree_map::)?(IntoIter|Keys|Values|Iter|Difference)<.*> as IntoIterator>::into_iter$",
+       "an iterator is its own IntoIterator")
 def m_intoiter_identity(interp, path, args, ret_ty, callee):
     return args[0]
 
@@ -1442,6 +1489,25 @@ def m_ref_cmp_forward(interp, path, args, ret_ty, callee):
             return interp.read(path, v.fid, v.local, v.projs)
         raise Refuse("comparison of references on %r" % (v,))
     return interp.call_named(path, "<%s as %s>::%s" % (t, trait, meth), [one_level(a) for a in args], ret_ty)
+
+
+@model(r"^<([iu](8|16|32|64|128|size)) as (AddAssign|SubAssign)(<.*>)?>::(add_assign|sub_assign)$",
+       "in-place add / subtract through the reference; overflow panics (overflow checks on)")
+def m_prim_op_assign(interp, path, args, ret_ty, callee):
+    r, y = args[0], args[1]
+    ty = re.match(r"^<(\w+) as", canon(callee)).group(1)
+    if r.kind != "ref" or hasattr(r, "target"):
+        raise Refuse("op-assign needs a reference to a place")
+    cur = interp.read(path, r.fid, r.local, r.projs)
+    val = cur.term + y.term if "add_assign" in callee else cur.term - y.term
+    outs = []
+    for p, tag in interp.fork(path, [(in_range(val, ty), "ok"), (z3.Not(in_range(val, ty)), "ovf")]):
+        if tag == "ok":
+            interp.write(p, r.fid, r.local, r.projs, IntV(val, ty))
+            outs.append(Outcome(p, "ret", UnitV()))
+        else:
+            outs.append(Outcome(p, "panic", msg="attempt to add/subtract with overflow"))
+    return outs
 
 
 # ---------------------------------------------------------------- std blanket conversions
